@@ -26,6 +26,14 @@ impl<'a, const K: usize, T> From<&'a B<K, T>> for &'a C<K, T> {
 impl<'a, const K: usize, T> From<&'a mut B<K, T>> for &'a mut C<K, T> {
     fn from(v: &'a mut B<K, T>) -> Self { op(format!("mb2c<{}>", K)); unsafe { &mut *(v as *mut B<K, T> as *mut C<K, T>) } }
 }
+// modules named like the attribute keywords: a listed type may be spelled through them (`#[from(types::A<1>)]`)
+pub mod types { pub use super::{A, B, C}; }
+pub mod owned { pub use super::{A, B, C}; }
+pub mod forward { pub use super::{A, B, C}; }
+pub mod skip { pub use super::{A, B, C}; }
+pub mod ignore { pub use super::{A, B, C}; }
+pub mod r#ref { pub use super::{A, B, C}; }
+pub mod ref_mut { pub use super::{A, B, C}; }
 pub fn mka<const K: usize>(v: u64) -> A<K> { A(v) }
 pub fn mkb<const K: usize>(v: u64) -> B<K> { B(v) }
 pub fn sops() -> String {
@@ -42,6 +50,9 @@ REFKINDS = ("owned", "ref", "ref_mut")
 RK_PREFIX = {"owned": "", "ref": "&'static ", "ref_mut": "&'static mut "}
 RK_EXPR = {"owned": "", "ref": "&", "ref_mut": "&mut "}
 RK_OP = {"owned": "b2c", "ref": "rb2c", "ref_mut": "mb2c"}
+
+
+PATH_PREFIXES = ["types::", "types::", "owned::", "forward::", "skip::", "ignore::", "r#ref::", "ref_mut::", "crate::types::", "self::types::"]
 
 
 def ty(fam, k, gen=False):
@@ -94,6 +105,9 @@ class Fields:
     def __init__(self, rng, kind, n, ks, gen=False):
         self.kind, self.n, self.ks, self.gen = kind, n, ks, gen
         self.names = rng.sample(NAMES, n) if kind == "named" else [str(i) for i in range(n)]
+        # how listed types are spelled inside attributes: mostly plain, sometimes through a module whose name is an
+        # attribute keyword (a type list is a list of TYPES, whatever their first path segment is called)
+        self.pfx = rng.choice(PATH_PREFIXES) if rng.random() < 0.2 else ""
 
     def decl(self, field_attrs=None, vis="pub "):
         fa = field_attrs or [""] * self.n
@@ -124,7 +138,7 @@ class Fields:
 
     def src_ty_decl(self, spec):
         """Same, as written in an attribute inside the (possibly generic) type definition."""
-        return tup([ty(f, k, self.gen) for f, k in zip(spec, self.ks)])
+        return tup([self.pfx + ty(f, k, self.gen) for f, k in zip(spec, self.ks)])
 
     def src_val(self, spec, vals):
         return tup([mk(f, k, v) for f, k, v in zip(spec, self.ks, vals)])
